@@ -206,6 +206,15 @@ pub fn gen16(r: &mut Rng, n: usize, thorough: bool) -> Vec<String> {
             out.push(format!("dec {}", hex(&s)));
         }
     }
+    // length prefixes and integers at the limits of usize / i64 (a prefix above isize::MAX must be an error, not a panic)
+    for doc in [
+        &b"18446744073709551615:"[..], b"18446744073709551616:", b"18446744073709551614:ab", b"9223372036854775808:",
+        b"9223372036854775809:x", b"l9223372036854775808:abce", b"d9223372036854775808:abi1ee", b"99999999999999999999:a",
+        b"00000000000000000000000002:ab", b"i9223372036854775807e", b"i9223372036854775808e", b"i-9223372036854775808e",
+        b"i-9223372036854775809e", b"i-0e", b"i-00e", b"i00e", b"li-0ee", b"d1:ai-0ee", b"i-e", b"i--1e", b"i1-e",
+    ] {
+        out.push(format!("dec {}", hex(doc)));
+    }
     // random longer strings over the alphabet, truncations and one-byte mutations of valid documents
     while out.len() < n.max(11_200) {
         match r.below(4) {
